@@ -4,11 +4,11 @@ cd "$1" || exit 2
 /venv/bin/python -c "import photon_weave,sys; print('using', photon_weave.__file__)"
 /venv/bin/python -m pytest -ra -q -p no:cacheprovider --timeout=900 --continue-on-collection-errors --junitxml=${TMPDIR:-/tmp}/pw_triage_run.junit.xml > ${TMPDIR:-/tmp}/pw_triage_run.log 2>&1
 tail -1 ${TMPDIR:-/tmp}/pw_triage_run.log
-/venv/bin/python - <<'PY'
-import json, xml.etree.ElementTree as ET
+JUNIT=${TMPDIR:-/tmp}/pw_triage_run.junit.xml /venv/bin/python - <<'PY'
+import json, os, xml.etree.ElementTree as ET
 b=json.load(open('/root/.vp/BASELINE.json'))
 stable=set(b['stable_pass'])
-t=ET.parse('${TMPDIR:-/tmp}/pw_triage_run.junit.xml')
+t=ET.parse(os.environ['JUNIT'])
 res={}
 for tc in t.iter('testcase'):
     name=f"{tc.get('classname')}::{tc.get('name')}"
